@@ -1,10 +1,10 @@
 package main
 
 import (
-	"go/types"
 	"encoding/json"
 	"flag"
 	"fmt"
+	"go/types"
 	"os"
 	"path/filepath"
 	"sort"
